@@ -217,7 +217,8 @@ def run():
             key = "c07:shape%d:%s" % (si, "renaming-changes-result" if fresh_ok else "reference-expansion-differs")
             chk.report(key, "macro shape %d with user variables renamed to %s: chibi's result differs from the reference expansion (%s)" % (si, tgt, bad[pid_]),
                        "hyg_%d.json" % pid_, {"key": key, "renaming": mp, "scheme": node.scm, "macros": MACROS, "implementation": results.get(pid_), "core": node.core})
-        chk.cov["traces_validated_against_impl"] = len(ok)
+        hyg_ok, hyg_n = hygiene_phase(chk, build, sc, rng)
+        chk.cov["traces_validated_against_impl"] = len(ok) + hyg_ok
         chk.cov["shapes"] = len(shape_bodies)
         chk.cov["evaluations"] = len(progs)
         chk.cov["distinct_nontrivial"] = len({n.scm for _, n in progs})
@@ -226,9 +227,75 @@ def run():
         chk.sample({"scheme": progs[3][1].scm[:700], "renaming": groups[progs[3][0]][1], "implementation_output": results.get(progs[3][0])})
         if len(ok) < len(progs) * 0.5 and not chk.violations:
             raise Broken("too few programs validated")
-        chk.assumptions += ["the meaning of a macro use is given by the generator's reference expansion (collision-free names) run on Core.tla; a TLA+ model of the expander's renaming algorithm is not built",
-                            "bounded catalogue of macro shapes: a hygiene defect outside these shapes is not found"]
+        chk.assumptions += ["catalogue phase (incl. er-/sc-/rsc-macro-transformer renditions, toplevel helper, macro-defining macros with define-syntax): the meaning of a macro use is the generator's reference expansion run on Core.tla",
+                            "model phase: Hygiene.tla (marks + labels renaming algorithm, R7RS 7.3 derived forms as data) covers syntax-rules with literals, one and two ellipsis levels, let-syntax/letrec-syntax, macro-defining macros; not dotted patterns, vectors, (... ...), custom ellipsis, toplevel definitions"]
     return chk.finish()
+
+
+def hygiene_phase(chk, build, sc, rng):
+    """Phase 2: generated syntax-rules macros; Hygiene.tla gives the expansion, TLC proves it invariant under the
+    renamings and runs it on the Core machine; every renamed copy runs on the real interpreter."""
+    import collections, os
+    import sexpr, hyggen
+    Node = collections.namedtuple("Node", "scm core")
+    ncases = 400 if chk.thorough else 90
+    nren = 8 if chk.thorough else 5
+    cases, progs, pid = [], [], 0
+    for c in range(ncases):
+        text, body = hyggen.G(rng).program()
+        sx = sexpr.parse(text)
+        rens = hyggen.renamings(rng, body, nren, text)
+        ids = []
+        for rn in rens:
+            pid += 1
+            progs.append((pid, Node(sexpr.show(sexpr.rename(sx, dict(rn))), None)))
+            ids.append(pid)
+        cases.append({"id": c + 1, "sx": sx, "rens": rens, "ids": ids, "text": text})
+    res = cc.run_all(build, sc, progs, "hyg", batch=40)
+    pre = sc.file("hyg_prelude.ndjson")
+    vlib.write_ndjson(pre, sexpr.prelude_records(os.path.join(vlib.VERIF, "spec", "r7rs-derived.scm")))
+    shards = list(vlib.chunks(cases, max(1, (len(cases) + 7) // 8)))
+
+    def one(ish):
+        i, part = ish
+        path = sc.file("hyg_%d.ndjson" % i)
+        vlib.write_ndjson(path, [{"id": c["id"], "sx": c["sx"], "rens": c["rens"],
+                                  "outs": [{"status": res.get(k, {}).get("status", "missing"), "out": res.get(k, {}).get("out", [])} for k in c["ids"]]} for c in part])
+        r = vlib.run_tlc("HygRun.tla", "HygRun.cfg", sc.path, env={"TRACE": path, "PRELUDE": pre}, workers=2, timeout=1500, heap="3g")
+        if r.error:
+            raise Broken("HygRun failed: %s" % r.error[:1500])
+        return r
+    verdicts = collections.Counter()
+    bad = []
+    for r in vlib.parallel(one, list(enumerate(shards)), jobs=8):
+        chk.cov["states"] += r.distinct
+        chk.cov["transitions"] += r.generated
+        for line in r.out.splitlines():
+            m = re.match(r'<<"(OK|MISMATCH|EXPERR|NOTINVARIANT)", (\d+)(?:, (\d+))?', line)
+            if m:
+                verdicts[m.group(1)] += 1
+                if m.group(1) != "OK":
+                    bad.append((m.group(1), int(m.group(2)), int(m.group(3)) if m.group(3) else 0))
+    if verdicts["EXPERR"] or verdicts["NOTINVARIANT"]:
+        what = [b for b in bad if b[0] in ("EXPERR", "NOTINVARIANT")][0]
+        raise Broken("Hygiene.tla / generator problem: %s on case %d: %s" % (what[0], what[1], cases[what[1] - 1]["text"][:600]))
+    expected = sum(len(c["rens"]) for c in cases)
+    if verdicts["OK"] + verdicts["MISMATCH"] != expected:
+        raise Broken("HygRun produced %d verdicts for %d renamed programs" % (verdicts["OK"] + verdicts["MISMATCH"], expected))
+    by_case = collections.defaultdict(list)
+    for kind, cid, j in bad:
+        by_case[cid].append(j)
+    for cid, js in sorted(by_case.items()):
+        c = cases[cid - 1]
+        fresh_ok = 1 not in js
+        key = "c07:syntax-rules:%s" % ("renaming-changes-result" if fresh_ok else "expansion-differs-from-model")
+        j = js[0]
+        chk.report(key, "generated macro program %d: chibi's output for renaming %s differs from the expansion by Hygiene.tla run on the Core machine (%d of %d renamings differ)"
+                   % (cid, c["rens"][j - 1], len(js), len(c["rens"])),
+                   "hygiene_%d.json" % cid, {"key": key, "program": c["text"], "renaming": c["rens"][j - 1], "renamed_program": progs[c["ids"][j - 1] - 1][1].scm,
+                                             "implementation": res.get(c["ids"][j - 1]), "implementation_fresh_names": res.get(c["ids"][0])})
+    chk.cov["hygiene_model"] = {"programs": len(cases), "renamed_copies": expected, "accepted": verdicts["OK"]}
+    return verdicts["OK"], expected
 
 
 def replay(path):
